@@ -195,6 +195,32 @@ LAYOUTS = [
 
 # kinds of the extra (non-inertial) columns: complete float data, a multi-rate channel that is filled on every
 # 4th record only (NaN elsewhere), an object-dtype status column
+class StatementFailure(Exception):
+    """the implementation raised, or the table it returned does not have the structure the property states,
+    on a valid input of a statement test: recorded as a concrete failure with that input, never a crash"""
+
+
+def _describe(imu):
+    return (f"{len(imu)} samples, columns {[f'{c}:{t}' for c, t in zip(imu.columns, imu.dtypes)]}, "
+            f"index {imu.index.dtype}" + (f" from {float(imu.index[0])!r}" if len(imu) else ""))
+
+
+def _impl(imu, typ):
+    """compute_increments_from_imu on a valid Imu table; a result that is not a 7-column table is a failure"""
+    from pyins.strapdown import compute_increments_from_imu
+    try:
+        out = compute_increments_from_imu(imu, typ)
+    except Exception as ex:
+        raise StatementFailure(f"compute_increments_from_imu(imu, {typ!r}) raised {type(ex).__name__}: {ex} "
+                               f"for a valid Imu table ({_describe(imu)})")
+    want = ['dt'] + COLS_TH + COLS_DV
+    if not hasattr(out, 'columns') or list(out.columns) != want or out.values.ndim != 2:
+        raise StatementFailure(f"compute_increments_from_imu(imu, {typ!r}) returned "
+                               f"{type(out).__name__} with columns {list(getattr(out, 'columns', []))}, expected "
+                               f"a table with columns {want} ({_describe(imu)})")
+    return out
+
+
 EXTRA_KIND = {'odometer': 'complete', 'temperature': 'partial', 'aux': 'partial', 'flag': 'object'}
 # time offsets of the float64 time axis (0, uptime seconds, GPS seconds of week, UNIX seconds)
 OFFSETS = [0.0, 1e5, 1.2e6, 1.7e9]
@@ -231,13 +257,24 @@ def _same_table(out, ref):
         np.array_equal(out.values, ref.values)
 
 
+def _safe(fn):
+    """a statement helper that returns a failure string or None: a StatementFailure inside is that string"""
+    def g(*a, **k):
+        try:
+            return fn(*a, **k)
+        except StatementFailure as ex:
+            return str(ex)
+    g.__doc__ = fn.__doc__
+    return g
+
+
+@_safe
 def layout_identity(imu, typ):
     """results for every layout of LAYOUTS (column order, extra complete / partially NaN / object columns)
     must be bit-identical to the canonical layout's.  Returns a failure string or None."""
-    from pyins.strapdown import compute_increments_from_imu
-    ref = compute_increments_from_imu(imu, typ)
+    ref = _impl(imu, typ)
     for li, layout in enumerate(LAYOUTS[1:], 1):
-        out = compute_increments_from_imu(apply_layout(imu, layout), typ)
+        out = _impl(apply_layout(imu, layout), typ)
         if not _same_table(out, ref):
             dif = float(np.abs(out.values - ref.values).max()) if out.shape == ref.shape and out.size else None
             return (f"result for column layout {layout} (extra columns: {EXTRA_KIND}) differs from the result for "
@@ -262,23 +299,23 @@ def stamp_clause(out, index, what):
     return None
 
 
+@_safe
 def dtype_offset_check(imu, typ, k=0):
     """readings stored as float32 independently of the float64 time axis, for every time offset of OFFSETS:
     the stamp clause holds exactly, and theta / dv agree with the result for the same (float32-representable)
     readings stored as float64 within float32 rounding of the arithmetic on the readings (TOL32).  Also float64
     readings at every offset: stamp clause.  `k` selects the column layout of the float32 table.
     Returns a failure string or None."""
-    from pyins.strapdown import compute_increments_from_imu
     import pandas as pd
     for off in OFFSETS:
         idx = np.asarray(imu.index, dtype=np.float64) + off
         t64 = pd.DataFrame(imu.values.astype(np.float32).astype(np.float64), index=idx, columns=list(imu.columns))
-        ref = compute_increments_from_imu(t64, typ)
+        ref = _impl(t64, typ)
         bad = stamp_clause(ref, idx, f"float64 readings, time offset {off:g} s")
         if bad:
             return bad
         layout = LAYOUTS[k % len(LAYOUTS)]
-        out = compute_increments_from_imu(apply_layout(t64, layout, dtype=np.float32), typ)
+        out = _impl(apply_layout(t64, layout, dtype=np.float32), typ)
         what = f"float32 readings, float64 time stamps offset by {off:g} s, columns {layout}"
         bad = stamp_clause(out, idx, what)
         if bad:
@@ -299,10 +336,6 @@ def dtype_offset_check(imu, typ, k=0):
 # ---------------------------------------------------------------------------
 # running the implementation
 
-class StatementFailure(Exception):
-    """the table returned by the implementation does not have the row/stamp structure the property states"""
-
-
 def make_table(om, f, stamps, typ, layout=None):
     import pandas as pd
     from pyins.util import GYRO_COLS, ACCEL_COLS
@@ -319,8 +352,7 @@ def make_table(om, f, stamps, typ, layout=None):
 
 def row_errors(om, f, stamps, typ, layout=None):
     """per result row: |theta - rotvec(C)|, |dv - u|, |dv - u + a x (a x d) T^3/6|, theta_code - theta_exact"""
-    from pyins.strapdown import compute_increments_from_imu
-    inc = compute_increments_from_imu(make_table(om, f, stamps, typ, layout), typ)
+    inc = _impl(make_table(om, f, stamps, typ, layout), typ)
     bad = stamp_clause(inc, stamps, f"columns {layout or CANON}")
     if bad:
         raise StatementFailure(bad)
@@ -339,6 +371,8 @@ def row_errors(om, f, stamps, typ, layout=None):
 
 def window_max(om, f, stamps, typ, layout=None):
     e = row_errors(om, f, stamps, typ, layout)
+    if not e:
+        raise StatementFailure(f"no result rows for {len(stamps)} samples (columns {layout or CANON})")
     return np.array([max(x[k] for x in e) for k in range(3)])
 
 
@@ -499,40 +533,46 @@ def numeric_statements(r, trials, seed_shift=0, small_T=True):
                     layout = LAYOUTS[lc % len(LAYOUTS)]
                     stats['layouts']['slope_cases_per_layout'][lc % len(LAYOUTS)] += 1
                     lc += 1
-                    tbl = make_table(om, f, uniform_stamps(t_start, 0.04), typ)
-                    lbad = layout_identity(tbl, typ) or dtype_offset_check(tbl, typ, k=lc)
-                    stats['layouts']['identity_tables'] += 1
-                    if lbad:
-                        fails.append((f"{kind} signals, {typ} type: {lbad}",
-                                      dict(kind='layout', sig=kind, typ=typ, om=om.to_json(), f=f.to_json(),
-                                           t_start=t_start, k=lc)))
                     try:
-                        E, sl = slope_case(om, f, typ, pattern, t_start, layout)
-                    except StatementFailure as ex:
-                        fails.append((f"{kind} signals, {typ} type, {stamps_kind} stamps: {ex}",
+                        tbl = make_table(om, f, uniform_stamps(t_start, 0.04), typ)
+                        lbad = layout_identity(tbl, typ) or dtype_offset_check(tbl, typ, k=lc)
+                        stats['layouts']['identity_tables'] += 1
+                        if lbad:
+                            fails.append((f"{kind} signals, {typ} type: {lbad}",
+                                          dict(kind='layout', sig=kind, typ=typ, om=om.to_json(), f=f.to_json(),
+                                               t_start=t_start, k=lc)))
+                        try:
+                            E, sl = slope_case(om, f, typ, pattern, t_start, layout)
+                        except StatementFailure as ex:
+                            fails.append((f"{kind} signals, {typ} type, {stamps_kind} stamps: {ex}",
+                                          dict(kind='slope', sig=kind, typ=typ, om=om.to_json(), f=f.to_json(),
+                                               pattern=pattern, t_start=t_start, layout=layout)))
+                            continue
+                        # increment type x unequal adjacent intervals: theta carries the cubic term of
+                        # theorem C15_incr_unequal_discrepancy (candidate finding F2) - measured below,
+                        # not judged against the "exact through the cubic term" threshold here
+                        bad = judge(kind, E, sl, skip_theta=unequal_incr and kind == 'lin')
+                        if unequal_incr and kind == 'lin':
+                            # dv carries the same cubic factor times (a x e + d x b): judge dv at order 3 only
+                            bad = [b for b in bad if not b.startswith('dv+gap')]
+                            w, _ = f2_measure(om, f, pattern, t_start, 0.16, layout)
+                            w4, rs4 = f2_measure(om, f, pattern, t_start, 0.02, layout)
+                            f2_resid = max(f2_resid, rs4 / max(w4[0], 1e-300))
+                            if w[0] > f2_worst[0]:
+                                f2_worst = (w[0], dict(w[1], om=om.to_json(), f=f.to_json(), pattern=pattern,
+                                                       t_start=t_start, theta_slope=float(sl[0]), layout=layout))
+                        if small_T and stamps_kind == 'uniform' and trial == 0:
+                            bad += small_T_case(om, f, typ, t_start, kind, E[-1], layout)
+                        sls.append([float(x) for x in sl])
+                        for b in bad:
+                            fails.append((f"{kind} signals, {typ} type, {stamps_kind} stamps, columns {layout}: {b}",
+                                          dict(kind='slope', sig=kind, typ=typ, om=om.to_json(), f=f.to_json(),
+                                               pattern=pattern, t_start=t_start, layout=layout)))
+                    except Exception as ex:       # implementation crash / ill-shaped result: a concrete failure of this input
+                        what = str(ex) if isinstance(ex, StatementFailure) else f"statement test aborted with {type(ex).__name__}: {ex}"
+                        fails.append((f"{kind} signals, {typ} type, {stamps_kind} stamps: {what}",
                                       dict(kind='slope', sig=kind, typ=typ, om=om.to_json(), f=f.to_json(),
-                                           pattern=pattern, t_start=t_start, layout=layout)))
-                        continue
-                    # increment type x unequal adjacent intervals: theta carries the cubic term of
-                    # theorem C15_incr_unequal_discrepancy (candidate finding F2) - measured below,
-                    # not judged against the "exact through the cubic term" threshold here
-                    bad = judge(kind, E, sl, skip_theta=unequal_incr and kind == 'lin')
-                    if unequal_incr and kind == 'lin':
-                        # dv carries the same cubic factor times (a x e + d x b): judge dv at order 3 only
-                        bad = [b for b in bad if not b.startswith('dv+gap')]
-                        w, _ = f2_measure(om, f, pattern, t_start, 0.16, layout)
-                        w4, rs4 = f2_measure(om, f, pattern, t_start, 0.02, layout)
-                        f2_resid = max(f2_resid, rs4 / max(w4[0], 1e-300))
-                        if w[0] > f2_worst[0]:
-                            f2_worst = (w[0], dict(w[1], om=om.to_json(), f=f.to_json(), pattern=pattern,
-                                                   t_start=t_start, theta_slope=float(sl[0]), layout=layout))
-                    if small_T and stamps_kind == 'uniform' and trial == 0:
-                        bad += small_T_case(om, f, typ, t_start, kind, E[-1], layout)
-                    sls.append([float(x) for x in sl])
-                    for b in bad:
-                        fails.append((f"{kind} signals, {typ} type, {stamps_kind} stamps, columns {layout}: {b}",
-                                      dict(kind='slope', sig=kind, typ=typ, om=om.to_json(), f=f.to_json(),
-                                           pattern=pattern, t_start=t_start, layout=layout)))
+                                           pattern=pattern, t_start=t_start, layout=layout, k=lc)))
                 stats['slopes'][f"{kind}/{typ}/{stamps_kind}"] = dict(
                     min=[min(s[k] for s in sls) if sls else None for k in range(3)], cases=len(sls),
                     columns=['theta', 'dv', 'dv+gap'])
@@ -564,11 +604,21 @@ def build(stamps64, data):
 
 
 def rows_check(stamps64, data, typ, provenance=True):
+    """never raises: an exception of the implementation / an ill-shaped result is a failure of this input"""
+    try:
+        return _rows_check(stamps64, data, typ, provenance)
+    except StatementFailure as ex:
+        return str(ex), None
+    except Exception as ex:
+        import traceback
+        return f"statement test aborted with {type(ex).__name__}: {ex} ({traceback.format_exc().splitlines()[-3].strip()})", None
+
+
+def _rows_check(stamps64, data, typ, provenance=True):
     """the row/stamp statements on the implementation.  Returns (failure or None, canonical rows)."""
-    from pyins.strapdown import compute_increments_from_imu
     n = len(stamps64)
     imu = build(stamps64, data)
-    out = compute_increments_from_imu(imu, typ)
+    out = _impl(imu, typ)
     want_cols = ['dt'] + COLS_TH + COLS_DV
     if list(out.columns) != want_cols:
         return f"columns {list(out.columns)}", None
@@ -588,14 +638,14 @@ def rows_check(stamps64, data, typ, provenance=True):
     if n >= 2 and stamps64[0] >= 64 * 1000:
         # translation of the (dyadic) time axis: same dt bits, hence bit-identical columns, shifted labels
         base = (stamps64[0] // 64) * 64
-        o0 = compute_increments_from_imu(build([k - base for k in stamps64], data), typ)
+        o0 = _impl(build([k - base for k in stamps64], data), typ)
         if not np.array_equal(o0.values, vals) or \
                 not np.array_equal(np.asarray(o0.index, float) + base / 64.0, np.asarray(out.index, float)):
             return (f"results for the time axis shifted by {base // 64} s differ from those for the unshifted axis "
                     f"(max abs difference {float(np.abs(o0.values - vals).max()):.3e})"), None
     canon = []
     for i in range(n - 1):
-        one = compute_increments_from_imu(imu.iloc[i:i + 2], typ)
+        one = _impl(imu.iloc[i:i + 2], typ)
         if not np.array_equal(one.values[0], vals[i]) or one.index[0] != out.index[i]:
             return f"row {i} differs from the result on the two-sample table [{i}, {i + 1}]", None
         canon.append((stamps64[i + 1], stamps64[i + 1] - stamps64[i], i, i + 1))
@@ -603,7 +653,7 @@ def rows_check(stamps64, data, typ, provenance=True):
         for j in range(n):
             d2 = [list(x) for x in data]
             d2[j] = [x + 0.125 for x in d2[j]]
-            o2 = compute_increments_from_imu(build(stamps64, d2), typ).values
+            o2 = _impl(build(stamps64, d2), typ).values
             changed = sorted(i for i in range(n - 1) if not np.array_equal(o2[i], vals[i]))
             want = sorted(i for i in (j - 1, j) if 0 <= i < n - 1)
             if changed != want:
@@ -764,6 +814,14 @@ def falsify(r):
 
 
 def replay(obj):
+    try:
+        return _replay(obj)
+    except StatementFailure as ex:
+        print("FAILS:", ex)
+        return 1
+
+
+def _replay(obj):
     rep = obj.get('replay', obj)
     print("replay:", {k: v for k, v in rep.items() if k != 'data'})
     if rep.get('kind') == 'rows':
